@@ -35,6 +35,7 @@ class Grammar:
         self.nts = list(nts); self.terms = list(terms); self.rules = list(rules); self.root = root
         self.vtypes = list(vtypes) if vtypes else ['V'] * len(self.nts)   # value kind per nonterminal: 'V','W','I'
         self.note = note
+        self.tvtype = 'V'     # value kind returned by typed-term functors
     # term indices: 0..T-1 user terms, T eof, T+1 error token
     @property
     def T(self): return len(self.terms)
@@ -64,11 +65,13 @@ class Grammar:
         return '; '.join(out)
     def to_json(self):
         return {'nts': self.nts, 'terms': [t.to_json() for t in self.terms], 'rules': [r.to_json() for r in self.rules],
-                'root': self.root, 'vtypes': self.vtypes, 'note': self.note}
+                'root': self.root, 'vtypes': self.vtypes, 'note': self.note, 'tvtype': self.tvtype}
     @staticmethod
     def from_json(d):
-        return Grammar(d['nts'], [Term.from_json(t) for t in d['terms']], [Rule.from_json(r) for r in d['rules']],
-                       d.get('root', 0), d.get('vtypes'), d.get('note', ''))
+        g = Grammar(d['nts'], [Term.from_json(t) for t in d['terms']], [Rule.from_json(r) for r in d['rules']],
+                    d.get('root', 0), d.get('vtypes'), d.get('note', ''))
+        g.tvtype = d.get('tvtype', 'V')
+        return g
     def key(self):
         d = self.to_json(); d.pop('note', None)
         return hashlib.sha256(json.dumps(d, sort_keys=True).encode()).hexdigest()[:16]
@@ -77,7 +80,7 @@ def simple(spec, root=None, **kw):
     """Build a char-term grammar from text like 'S->a X; X->Z Y | eps; Z->c'.
     Upper-case-initial words are nonterminals, single characters are char terms, 'error' the error token."""
     nts = []; prods = []
-    for part in spec.split(';'):
+    for part in (spec.split('\n') if '\n' in spec else spec.split(';')):
         part = part.strip()
         if not part: continue
         l, r = part.split('->')
